@@ -117,12 +117,38 @@ def gen_doc(tape: Tape, marker: str, style: str = "canonical", size: int = 0) ->
     if style == "trail":
         lines = [ln + "   " if i % 2 else ln for i, ln in enumerate(lines)]
     for j in range(size):
-        lines.append(f"PAD{j}::\"{marker}-{'x' * 80}-{j}\"")
+        if style == "mbpad":
+            # multi-byte characters everywhere (2-, 3- and 4-byte sequences, shifted by one byte from line to line): whatever size a
+            # writer slices its output into, some slice boundary falls inside a character
+            lines.append(f"PAD{j}::\"{marker}-{'x' * (j % 4)}{'é☃𝔘ß' * 18}-{j}\"")
+        else:
+            lines.append(f"PAD{j}::\"{marker}-{'x' * 80}-{j}\"")
     if style != "noenvelope":
         lines.append("===END===")
     if style == "nonl":
         return "\n".join(lines)
     return "\n".join(lines) + "\n"
+
+
+def exact_size_doc(marker: str, nbytes: int, multibyte: bool = False) -> str:
+    """A canonical document whose UTF-8 encoding is EXACTLY ``nbytes`` long (thresholds: 4096, 8192, 65536 and their neighbours)."""
+    head = f'===DOC===\nMETA:\n  TYPE::TEST\n  VERSION::"1.0"\nMARK::{marker}\nLONG::"'
+    tail = '"\n===END===\n'
+    room = nbytes - len(head.encode()) - len(tail.encode())
+    if room < 0:
+        raise ValueError("too small")
+    if multibyte:
+        body = "☃" * (room // 3) + "x" * (room % 3)
+        body = "x" + body[:-1] if room % 3 == 0 and room else body  # shift so that 3-byte characters straddle power-of-two offsets
+        pad = room - len(body.encode())
+        body = body[: len(body) - 1] if pad < 0 else body + "x" * pad
+        while len(body.encode()) > room:
+            body = body[:-1]
+        body += "x" * (room - len(body.encode()))
+    else:
+        body = ("xy " * (room // 3 + 1))[:room]  # a space inside keeps the value quoted in canonical form
+        body = body[:-1] + "z" if body.endswith(" ") else body
+    return head + body + tail
 
 
 UNPARSEABLE = [
